@@ -1,19 +1,47 @@
 /-
-  Tie 1 for C04: facts read from the source of the tree under test on every run
-  (Generated/C04_Source.lean, written by vlib/checks/c04.py) and checked here by `decide`.
+  Tie 1 for C04: facts regenerated from the tree under test on every run (Generated/C04_Source.lean, written by
+  vlib/checks/c04.py) and checked here by `decide`.
 
   Only what the machinery itself relies on is an obligation:
-  * the digest pattern of `GetBlobsPath` — `Model.Store.isHex64` / `JName` and the driver's classification of
-    file names in blobs/ are this pattern;
+  * what `GetBlobsPath` DOES on one digest string of every class — obtained by EXECUTING the real function
+    (driver `TestVerifC04Facts`), not by reading its regular expression: `Model.Store.isHex64` / `Digest.key` /
+    `JName` and the driver's classification of file names in blobs/ are this behaviour (both spellings name one
+    file, the hex is kept as written, everything else is refused).  The regular expression itself is recorded
+    in the evidence only: rewriting it equivalently must not fail the check;
   * the startup sequence of `Serve` — the driver's `prune` operation and `Model.Store.pruneStartup` transcribe
     it (fixBlobs; NoPrune gate; Manifests(false) gate; PruneLayers; PruneDirectory).
 -/
 import OllamaVerif.Generated.C04_Source
+import OllamaVerif.Model.Store
 
 namespace OllamaVerif.Tie.C04
-open OllamaVerif.Generated.C04
+open OllamaVerif.Generated.C04 OllamaVerif.Store
 
-theorem blob_pattern : blobPattern.toList = "^sha256[:-][0-9a-fA-F]{64}$".toList := by decide +kernel
+def hexL : String := "0123456789abcdef0123456789abcdef0123456789abcdef0123456789abcdef"
+def hexU : String := "0123456789ABCDEF0123456789ABCDEF0123456789ABCDEF0123456789ABCDEF"
+
+/-- one digest string of every class `GetBlobsPath` / `PruneLayers` / `fixBlobs` distinguish (the driver's
+    `c04TieInputs` is the same list) -/
+def tieInputs : List String :=
+  ["sha256:" ++ hexL, "sha256-" ++ hexL, "sha256:" ++ hexU, "sha256-" ++ hexU,
+   "sha256:" ++ String.ofList (hexL.toList.take 63), "sha256:" ++ hexL ++ "0", "sha256-" ++ hexL ++ "-partial",
+   "sha256_" ++ hexL, "SHA256:" ++ hexL, "sha256:" ++ String.ofList (hexL.toList.take 63) ++ "g", "sha512:" ++ hexL,
+   "sha256" ++ hexL]
+
+/-- the model's reading of a digest string: `sha256:<64 hex>` and `sha256-<64 hex>` both name the file
+    `sha256-<hex>` with the hex AS WRITTEN (the file name is case-sensitive: `Digest.key = hex`); every other
+    string is refused -/
+def modelBlobFile (s : String) : Option String :=
+  let pre := String.ofList (s.toList.take 7)
+  let rest := String.ofList (s.toList.drop 7)
+  if (pre == "sha256:" || pre == "sha256-") && isHex64 rest then some ("sha256-" ++ rest) else none
+
+/-- the table really is the answer of the real function on every class (fails closed when the facts run did
+    not happen) -/
+theorem blobs_path_inputs : blobsPathTable.map (·.1) = tieInputs := by decide +kernel
+
+/-- the real `GetBlobsPath` of the tree under test and the model read digest strings alike -/
+theorem blobs_path_table : blobsPathTable.all (fun p => modelBlobFile p.1 == p.2) = true := by decide +kernel
 
 theorem serve_startup_sequence :
     serveCalls.map String.toList =
